@@ -366,16 +366,23 @@ func (cv CertValidity) toTimeStruct() (config.CertificateValidity, error) {
 			m, _ := strconv.Atoi(all[4])
 			d, _ := strconv.Atoi(all[6])
 
-			out.Until = out.From.AddDate(y, m, d)
-			//a number that is too large makes the date wrap around
-			if out.Until.Before(out.From) {
+			//numbers that are too large make the date wrap around (even more than once)
+			const maxDurationNumber = 9999 * 366
+			if y > maxDurationNumber || m > maxDurationNumber || d > maxDurationNumber {
 				return out, errors.New(`config-v1: "duration" is out of range`)
 			}
+
+			out.Until = out.From.AddDate(y, m, d)
 			out.IsSet = true
 		} else {
 			//both empty
 			out.Until = out.From.AddDate(DefaultValidityYears, 0, 0)
 		}
+	}
+
+	//certificates (and the stored hash) can't express a later date
+	if out.Until.Year() > 9999 {
+		return out, errors.New(`config-v1: the validity ends after the year 9999`)
 	}
 
 	return out, nil
